@@ -34,7 +34,10 @@ def run(ctx):
                      '-arch repeats, 0-2 inputs, shuffled; 1 in 20 with non-UTF-8 bytes (implementation-only monitor); h_l1: exhaustive decision alphabet; system: edit/flag/language/output/env/restart histories')
     if cargo_repo_bins(ctx, ('sccache', 'sccache-dist')):
         nh, nr = (2, 10) if ctx.quick() else (12, 30)
+        if any('correspondence args' in b or 'correspondence key' in b or 'proof obligations' in b for b in ctx.broken): nh *= 6   # something no longer checks: search harder for a concrete failing request
         for cc in ('/usr/bin/gcc', '/usr/bin/clang'):
+            res = sysmon.st.run_corpus(sysmon.sysroot(ctx, 'c01'), 'c01c' + os.path.basename(cc), cc)
+            sysmon.feed(ctx, res, findings, f'system corpus histories {os.path.basename(cc)}')
             for dm in (True, False):
                 res = sysmon.st.run_histories(sysmon.sysroot(ctx, 'c01'), f'c01{os.path.basename(cc)}{dm}', cc, ctx.seed * 7 + dm, nh, nr, direct_mode=dm)
                 sysmon.feed(ctx, res, findings, f'system {os.path.basename(cc)} preprocessor_cache_mode={dm}')
